@@ -1554,8 +1554,8 @@ type nfs41LockOwnerFileState struct {
 	// Fields that are protected by nfs41ProgramState.clientsLock if
 	// clientIncarnationState.holdCount == 0, and
 	// clientIncarnationState.lock otherwise.
-	lockCount int
-	stateID   nfs41RegularStateID
+	*lockOwnerFileLockCount
+	stateID nfs41RegularStateID
 }
 
 // unlockAndRemove releases any locks in the file that are owned by the
@@ -2118,11 +2118,26 @@ func (s *sequenceState) opLock(args *nfsv4.Lock4args) nfsv4.Lock4res {
 	}
 
 	if lofs == nil {
+		// If the lock-owner already has a lock-owner file for
+		// the same file through another open-owner, share its
+		// lock count.
+		lockCount := &lockOwnerFileLockCount{}
+		handleKey := string(oofs.openedFile.GetHandle())
+		for _, otherOOS := range cis.openOwnersByOwner {
+			if otherOOFS, ok := otherOOS.filesByHandle[handleKey]; ok {
+				if otherLOFS, ok := otherOOFS.lockOwnerFiles[los]; ok {
+					lockCount = otherLOFS.lockOwnerFileLockCount
+					break
+				}
+			}
+		}
+
 		lofs = &nfs41LockOwnerFileState{
-			lockOwner:     los,
-			openOwnerFile: oofs,
-			shareAccess:   oofs.shareCount.clone(oofs.shareAccess),
-			stateID:       cis.newRegularStateID(),
+			lockOwner:              los,
+			openOwnerFile:          oofs,
+			shareAccess:            oofs.shareCount.clone(oofs.shareAccess),
+			lockOwnerFileLockCount: lockCount,
+			stateID:                cis.newRegularStateID(),
 		}
 		oofs.lockOwnerFiles[los] = lofs
 		los.fileCount.increase()
